@@ -9,14 +9,22 @@ NAME_CASE_SENSITIVE = True
 
 
 class Arr:
-    def __init__(self, name, lo, hi, typ):
-        self.name, self.lo, self.hi, self.typ = name, lo, hi, typ
+    def __init__(self, name, lo, hi, typ, lo2=None, hi2=None):
+        self.name, self.lo, self.hi, self.typ, self.lo2, self.hi2 = name, lo, hi, typ, lo2, hi2
+
+    @property
+    def rank(self):
+        return 1 if self.lo2 is None else 2
 
     @property
     def typed(self):
         # a negative literal bound is a unary expression: the reader keeps the declaration
         # as an UnsupportedFortranType and queries SIZE/LBOUND at run time
-        return self.lo >= 0
+        return self.lo >= 0 and (self.lo2 is None or self.lo2 >= 0)
+
+    @property
+    def extent2(self):
+        return self.hi2 - self.lo2 + 1
 
     @property
     def extent(self):
@@ -24,6 +32,8 @@ class Arr:
 
     def decl(self):
         dim = f"{self.hi}" if self.lo == 1 else f"{self.lo}:{self.hi}"
+        if self.lo2 is not None:
+            dim += ", " + (f"{self.hi2}" if self.lo2 == 1 else f"{self.lo2}:{self.hi2}")
         return f"  {self.typ}, dimension({dim}) :: {self.name}"
 
 
@@ -58,9 +68,18 @@ class Gen:
             lo = r.choice([1, 1, 0, 2, 3, -3, -1])
             self.arrs[nm] = Arr(nm, lo, lo + ext - 1, typ)
             names.id(nm)
+        # rank-2 arrays: u, q of shape N1 x N2 and the bigger g
+        self.N1, self.N2 = r.randint(2, 4), r.randint(2, 4)
+        self.arrs2 = {}
+        for nm, e1, e2 in (("u", self.N1, self.N2), ("q", self.N1, self.N2), ("g", self.N1 + 2, self.N2 + 3)):
+            l1, l2 = r.choice([1, 1, 0, 2, -1]), r.choice([1, 0, 0, 3, -2])
+            self.arrs2[nm] = Arr(nm, l1, l1 + e1 - 1, INT, l2, l2 + e2 - 1)
+            names.id(nm)
+        names.id("jj")
         self.tag = 0
         self.label = 0
         self.nconstruct = 0
+        self.cnames = {}
         self.name_case_sensitive = NAME_CASE_SENSITIVE
         self.tagtext = {}
         self.feats = set()
@@ -108,6 +127,8 @@ class Gen:
             pool = (self.iscal + list(live)) if typ == INT else self.rscal
             v = r.choice(pool)
             return v, ["var", self.id(v)]
+        if typ == INT and x > 0.93:
+            return self.reduction_e(r.choice(self.arrs_of(INT)))
         arr = r.choice(self.arrs_of(typ) or self.arrs_of(INT))
         if arr.typ != typ:
             c = r.randint(0, 6)
@@ -259,14 +280,42 @@ class Gen:
         if x < 0.43:
             # in a `clean` WHERE reductions only read the big arrays, which a lowered WHERE never assigns
             arr = r.choice(self.arrs_of(typ, fam=2) if self.clean else self.arrs_of(typ))
-            if r.random() < 0.12:
-                self.feats.add("sumdim")
-                return f"sum({arr.name}, dim=1)", ["sumdim", self.id(arr.name)]
-            self.feats.add("sum")
-            return f"sum({arr.name})", ["sum", self.id(arr.name)]
+            return self.reduction_a(arr)
         arr = r.choice(self.arrs_of(typ))
         st, (lo, hi, s) = self.section(arr)
         return f"{arr.name}({st})", sec_ast(self.id(arr.name), lo, hi, s)
+
+    def reduction_text(self, arr, kind, dim):
+        """SUM / MAXVAL / MINVAL of a whole rank-1 array, with positional or named arguments"""
+        r = self.r
+        n = arr.name
+        if dim:
+            return r.choice([f"{kind}({n}, dim=1)", f"{kind}(dim=1, array={n})", f"{kind}(array={n}, dim=1)"])
+        if r.random() < 0.25:
+            self.feats.add("named-args")
+            return f"{kind}(array={n})"
+        return f"{kind}({n})"
+
+    def reduction_a(self, arr):
+        r = self.r
+        kind = r.choice(["sum", "sum", "maxval", "minval"])
+        if r.random() < 0.12:
+            self.feats.add("sumdim")
+            return self.reduction_text(arr, kind, True), ["reddim", kind, self.id(arr.name)]
+        self.feats.add("sum")
+        return self.reduction_text(arr, kind, False), ["red", kind, self.id(arr.name)]
+
+    def reduction_e(self, arr):
+        """a reduction inside a scalar expression: the AST is the unrolled expression (C01.redExpr)"""
+        r = self.r
+        kind = r.choice(["sum", "maxval", "minval"])
+        self.feats.add("reduction-in-expression")
+        aid = self.id(arr.name)
+        op = {"sum": "add", "maxval": "max", "minval": "min"}[kind]
+        ast = ["lit", 0] if kind == "sum" else ["idx1", aid, ["lit", arr.lo]]
+        for k in range(arr.lo, arr.hi + 1):
+            ast = ["bin", op, ast, ["idx1", aid, ["lit", k]]]
+        return self.reduction_text(arr, kind, r.random() < 0.3), ast
 
     def aexpr(self, typ, assigned, depth=0, need_sec=False):
         r = self.r
@@ -373,7 +422,7 @@ class Gen:
         rest = ["nil"]
         for t, a, ws in reversed(clauses):
             rest = ["final", [w for _, w in ws]] if t is None else ["masked", a, [w for _, w in ws], rest]
-        ast = ["where", tag, 1000 + tag, ["masked", ma, [w for _, w in body], rest]]
+        ast = ["where", tag, 1000 + 2 * tag, ["masked", ma, [w for _, w in body], rest]]
         if nbody == 1 and not clauses and r.random() < 0.5:
             lines = [f"{ind}where ({mt}) {body[0][0]}"]
         else:
@@ -384,6 +433,155 @@ class Gen:
             lines.append(f"{ind}end where")
         self.tagtext[tag] = squash("".join(lines))
         return lines, ast, tag
+
+    # ------------------------------------------------------------------ rank-2 WHERE
+    def section2(self, arr):
+        """an N1 x N2 section of a rank-2 array: (text, (lo,hi,st), (lo2,hi2,st2))"""
+        r = self.r
+
+        def dim(lo, hi, n):
+            if hi - lo + 1 == n:
+                x = r.random()
+                if x < 0.6:
+                    return ":", (None, None, None)
+                if x < 0.75:
+                    return f"{lo}:{hi}", (lo, hi, None)
+                if x < 0.83:
+                    return f"{lo}:", (lo, None, None)
+                if x < 0.9:
+                    return f":{hi}", (None, hi, None)
+                if x < 0.95 or self.clean:
+                    return "::1", (None, None, 1)
+                self.feats.add("stride")
+                return f"{hi}:{lo}:-1", (hi, lo, -1)
+            p = r.randint(lo, hi - n + 1)
+            if not self.clean and r.random() < 0.15 and p + 2 * n - 2 <= hi:
+                self.feats.add("stride")
+                return f"{p}:{p + 2 * n - 2}:2", (p, p + 2 * n - 2, 2)
+            return f"{p}:{p + n - 1}", (p, p + n - 1, None)
+        t1, s1 = dim(arr.lo, arr.hi, self.N1)
+        t2, s2 = dim(arr.lo2, arr.hi2, self.N2)
+        return f"{t1}, {t2}", s1, s2
+
+    def aleaf2(self):
+        r = self.r
+        x = r.random()
+        if x < 0.15:
+            c = r.randint(0, 6)
+            return str(c), ["scal", ["lit", c]]
+        if x < 0.3:
+            v = r.choice(self.iscal)
+            return v, ["scal", ["var", self.id(v)]]
+        if x < 0.37:
+            arr = self.arrs2["g"] if self.clean else r.choice(list(self.arrs2.values()))
+            c1, c2 = r.randint(arr.lo, arr.hi), r.randint(arr.lo2, arr.hi2)
+            return f"{arr.name}({c1}, {c2})", ["scal", ["idx2", self.id(arr.name), lit_ast(c1), lit_ast(c2)]]
+        if x < 0.43:
+            return self.reduction_a(r.choice(self.arrs_of(INT, fam=2)))     # reduction of a rank-1 array: a scalar
+        arr = r.choice(list(self.arrs2.values()))
+        t, s1, s2 = self.section2(arr)
+        return f"{arr.name}({t})", ["sec2", self.id(arr.name)] + [opt(v) for v in s1] + [opt(v) for v in s2]
+
+    def aexpr2(self, depth=0, need_sec=False):
+        r = self.r
+        if need_sec and depth >= 1:
+            arr = r.choice(list(self.arrs2.values()))
+            t, s1, s2 = self.section2(arr)
+            return f"{arr.name}({t})", ["sec2", self.id(arr.name)] + [opt(v) for v in s1] + [opt(v) for v in s2]
+        if depth >= 2 or (r.random() < 0.35 and not need_sec):
+            return self.aleaf2()
+        x = r.random()
+        if x < 0.6:
+            op, nm = r.choice([("+", "add"), ("-", "sub"), ("*", "mul")])
+            at, aa = self.aexpr2(depth + 1, need_sec)
+            bt, ba = self.aexpr2(depth + 1)
+            return f"({at} {op} {bt})", ["bin", nm, aa, ba]
+        if x < 0.78:
+            nm = r.choice(["min", "max"])
+            at, aa = self.aexpr2(depth + 1, need_sec)
+            bt, ba = self.aexpr2(depth + 1)
+            return f"{nm}({at}, {bt})", ["bin", nm, aa, ba]
+        if x < 0.9:
+            at, aa = self.aexpr2(depth + 1, need_sec)
+            return f"abs({at})", ["un", "abs", aa]
+        at, aa = self.aexpr2(depth + 1, need_sec)
+        c = r.randint(2, 4)
+        return f"mod({at}, {c})", ["bin", "mod", aa, ["scal", ["lit", c]]]
+
+    def mask2(self):
+        r = self.r
+        op, nm = r.choice([(">", "gt"), ("<", "lt"), (">=", "ge"), ("<=", "le"), ("==", "eq"), ("/=", "ne")])
+        at, aa = self.aexpr2(1, need_sec=True)
+        bt, ba = self.aexpr2(1)
+        if r.random() < 0.25 and firstsec2(ba) is not None:
+            at, aa, bt, ba = bt, ba, at, aa
+        t, a = f"{at} {op} {bt}", ["bin", nm, aa, ba]
+        if r.random() < 0.25:
+            t2, a2 = self.mask2() if r.random() < 0.5 else (r.choice(self.lscal), None)
+            if a2 is None:
+                a2 = ["scal", ["var", self.id(t2)]]
+            else:
+                t2 = f"({t2})"
+            lop, lnm = r.choice([(".and.", "and"), (".or.", "or"), (".eqv.", "eqv")])
+            self.feats.add("where-logical-mask")
+            return f"(({t}) {lop} {t2})", ["bin", lnm, a, a2]
+        return t, a
+
+    def wassign2(self):
+        r = self.r
+        arr = r.choice([self.arrs2["u"], self.arrs2["q"]])
+        x = r.random()
+        if x < 0.85:
+            st, s1, s2 = ":, :", (None, None, None), (None, None, None)
+        elif x < 0.95:
+            st, s1, s2 = f"{arr.lo}:{arr.hi}, :", (arr.lo, arr.hi, None), (None, None, None)
+        else:
+            arr = self.arrs2["g"]        # not a full range: the reader refuses the construct
+            st = f"{arr.lo}:{arr.lo + self.N1 - 1}, {arr.lo2}:{arr.lo2 + self.N2 - 1}"
+            s1, s2 = (arr.lo, arr.lo + self.N1 - 1, None), (arr.lo2, arr.lo2 + self.N2 - 1, None)
+        rt, ra = self.aexpr2(0)
+        return f"{arr.name}({st}) = {rt}", ["wa2", self.id(arr.name), ["sec"] + [opt(v) for v in s1],
+                                           ["sec"] + [opt(v) for v in s2], ra]
+
+    def where2(self, ind):
+        r = self.r
+        self.tag += 1
+        tag = self.tag
+        self.feats.add("where")
+        self.feats.add("where-rank2")
+        self.clean = r.random() < 0.8
+        mt, ma = self.mask2()
+        body = [self.wassign2() for _ in range(r.choice([1, 1, 2, 3]))]
+        clauses = []
+        if r.random() < 0.45:
+            for _ in range(r.choice([0, 1, 1])):
+                t, a = self.mask2()
+                clauses.append((t, a, [self.wassign2() for _ in range(r.choice([1, 2]))]))
+                self.feats.add("elsewhere-masked")
+            if r.random() < 0.6 or not clauses:
+                clauses.append((None, None, [self.wassign2() for _ in range(r.choice([1, 2]))]))
+                self.feats.add("elsewhere")
+        rest = ["nil"]
+        for t, a, ws in reversed(clauses):
+            rest = ["final", [w for _, w in ws]] if t is None else ["masked", a, [w for _, w in ws], rest]
+        ast = ["where", tag, 1000 + 2 * tag, ["masked", ma, [w for _, w in body], rest]]
+        if len(body) == 1 and not clauses and r.random() < 0.5:
+            lines = [f"{ind}where ({mt}) {body[0][0]}"]
+        else:
+            lines = [f"{ind}where ({mt})"] + [f"{ind}  {t}" for t, _ in body]
+            for t, a, ws in clauses:
+                lines.append(f"{ind}elsewhere" + (f" ({t})" if t is not None else ""))
+                lines += [f"{ind}  {wt}" for wt, _ in ws]
+            lines.append(f"{ind}end where")
+        self.tagtext[tag] = squash("".join(lines))
+        return lines, ast, tag
+
+    def arrassign2(self, ind):
+        """top-level rank-2 array assignment: kept as array notation by the reader (opaque in the model)"""
+        self.clean = self.r.random() < 0.5
+        wt, _ = self.wassign2()
+        self.feats.add("array-assign")
+        return [f"{ind}{wt}"], ["cb", self.newtag(wt)], self.tag
 
     def arrassign(self, ind):
         self.tag += 1
@@ -491,6 +689,11 @@ class Gen:
             v = r.choice(self.lscal)
             t, a = self.cond(live)
             return [f"{ind}{v} = {t}"], ["assign", self.id(v), a]
+        if x < 0.42:
+            arr = r.choice(list(self.arrs2.values()))
+            c1, c2 = r.randint(arr.lo, arr.hi), r.randint(arr.lo2, arr.hi2)
+            t, a = self.expr(INT, live)
+            return [f"{ind}{arr.name}({c1}, {c2}) = {t}"], ["store2", self.id(arr.name), lit_ast(c1), lit_ast(c2), a]
         arr = r.choice(list(self.arrs.values()))
         it, ia = self.index(arr, live)
         t, a = self.expr(arr.typ if r.random() < 0.9 else INT, live)
@@ -529,6 +732,14 @@ class Gen:
         return [head] + blines + [f"{ind}end do"], ["do", self.id(v), ["lit", lo], ["lit", hi], stast, bast]
 
     # ------------------------------------------------------------------ unsupported statements (CodeBlocks)
+    def cname(self, spelling):
+        """id of a construct name (Fortran names are case-insensitive; a reader that compares them
+        case-sensitively is mirrored by giving different spellings different ids)"""
+        key = spelling if self.name_case_sensitive else spelling.lower()
+        if key not in self.cnames:
+            self.cnames[key] = 500 + len(self.cnames)
+        return self.cnames[key]
+
     def newtag(self, text):
         self.tag += 1
         self.tagtext[self.tag] = squash(text)
@@ -551,11 +762,12 @@ class Gen:
         ct, ca = self.jcond(live)
         tag = self.newtag(stmt)
         self.feats.add(kind + ("-named" if name else ""))
+        jast = ["jump", tag, 0 if kind == "exit" else 1, self.cname(name) if name else "none"]
         if self.r.random() < 0.7:
-            return [f"{ind}if ({ct}) {stmt}"], ["ite", ca, ["cb", tag], ["skip"]]
+            return [f"{ind}if ({ct}) {stmt}"], ["ite", ca, jast, ["skip"]]
         lines, ast = self.assign(live, ind + "  ")
         return [f"{ind}if ({ct}) then"] + lines + [f"{ind}  {stmt}", f"{ind}end if"], \
-            ["ite", ca, ["seqs", ast, ["cb", tag]], ["skip"]]
+            ["ite", ca, ["seqs", ast, jast], ["skip"]]
 
     def loop_bounds(self):
         r = self.r
@@ -591,7 +803,9 @@ class Gen:
             sp = name
             if r.random() < 0.07:
                 sp = name.upper() if name.upper() != name else name.lower()
-                self.feats.add("known:C01-construct-name-case")
+                self.feats.add("construct-name-other-case")
+                if self.name_case_sensitive:
+                    self.feats.add("known:C01-construct-name-case")
             spelled.append(sp)
             return sp
         parts = []            # (lines, ast)
@@ -624,14 +838,13 @@ class Gen:
             lines += ls
             asts.append(a)
         lines.append(f"{ind}end do" + (f" {name}" if named else ""))
-        if self.name_case_sensitive:
-            refd = named and name in spelled            # mirrors the reader's (case-sensitive) name check
-        else:
-            refd = named and name.lower() in [x.lower() for x in spelled]
-        if refd:
+        doast = ["do", self.id(v), ["lit", lo], ["lit", hi], "none" if st is None else lit_ast(st), ["seqs"] + asts]
+        if not named:
+            return lines, doast
+        # whether the construct is kept as one CodeBlock (its name is referred to inside) is decided by C01.lower
+        if self.cname(name) in [self.cname(x) for x in spelled]:
             self.feats.add("do-named-refused")
-            return lines, ["cb", self.newtag("".join(lines))]
-        return lines, ["do", self.id(v), ["lit", lo], ["lit", hi], "none" if st is None else lit_ast(st), ["seqs"] + asts]
+        return lines, ["named", self.newtag("".join(lines)), self.cname(name), doast]
 
     def refused_template(self, live, ind):
         """named constructs kept verbatim as one CodeBlock: counted DO / DO WHILE whose name is used by CYCLE/EXIT
@@ -643,27 +856,45 @@ class Gen:
         nm = r.choice(["scan", "Rows", "blk"]) + str(self.nconstruct)
         a, c = r.choice(self.iscal), r.randint(2, 9)
         kind = r.choice(["cycle", "exit"])
+        V = lambda n: ["var", self.id(n)]                      # noqa: E731
+        inc = lambda n, e: ["assign", self.id(n), ["bin", "add", V(n), e]]   # noqa: E731
         x = r.random()
         if x < 0.4:
-            lines = [f"{nm}: do {v} = {r.randint(3, 6)}, 1, -1", f"  {w} = 0", f"  do while ({w} < {v})",
+            hi = r.randint(3, 6)
+            lines = [f"{nm}: do {v} = {hi}, 1, -1", f"  {w} = 0", f"  do while ({w} < {v})",
                      f"    {w} = {w} + 1", f"    {a} = {a} + {w}", f"    if ({a} > {c}) {kind} {nm}", "  end do",
                      f"  {a} = {a} - 1", f"end do {nm}"]
             self.feats.add("do-named-refused")
-        elif x < 0.7:
-            lines = [f"{w} = 0", f"{nm}: do while ({w} < {r.randint(3, 6)})", f"  {w} = {w} + 1",
+            jt = self.newtag(f"{kind} {nm}")
+            wl = ["while", ["bin", "lt", V(w), V(v)],
+                  ["seqs", inc(w, ["lit", 1]), inc(a, V(w)),
+                   ["ite", ["bin", "gt", V(a), ["lit", c]], ["jump", jt, 0 if kind == "exit" else 1, self.cname(nm)], ["skip"]]]]
+            body = ["seqs", ["assign", self.id(w), ["lit", 0]], wl,
+                    ["assign", self.id(a), ["bin", "sub", V(a), ["lit", 1]]]]
+            ast = ["named", self.newtag("".join(lines)), self.cname(nm),
+                   ["do", self.id(v), ["lit", hi], ["lit", 1], lit_ast(-1), body]]
+            return [ind + ln for ln in lines], ast
+        if x < 0.7:
+            n = r.randint(3, 6)
+            lines = [f"{w} = 0", f"{nm}: do while ({w} < {n})", f"  {w} = {w} + 1",
                      f"  if (mod({w}, 2) == 0) cycle {nm}", f"  do {v} = 1, 3", f"    if ({v} > {w}) {kind} {nm}",
                      f"    {a} = {a} + {v}", "  end do", f"end do {nm}"]
             self.feats.add("do-while-named-refused")
-        else:
-            self.label += 10
-            lines = [f"do {self.label} {v} = 1, {r.randint(2, 5)}", f"  {a} = {a} + {v} * {c}",
-                     f"{self.label} continue"]
-            self.feats.add("label-do")
-        if lines[0].startswith(f"{w} = 0"):
-            first = [f"{ind}{lines[0]}"]
-            rest = lines[1:]
-            asts = [["assign", self.id(w), ["lit", 0]], ["cb", self.newtag("".join(rest))]]
-            return first + [ind + ln for ln in rest], ["seqs"] + asts
+            j1 = self.newtag(f"cycle {nm}")
+            j2 = self.newtag(f"{kind} {nm}")
+            inner = ["do", self.id(v), ["lit", 1], ["lit", 3], "none",
+                     ["seqs", ["ite", ["bin", "gt", V(v), V(w)], ["jump", j2, 0 if kind == "exit" else 1, self.cname(nm)], ["skip"]],
+                      inc(a, V(v))]]
+            wl = ["while", ["bin", "lt", V(w), ["lit", n]],
+                  ["seqs", inc(w, ["lit", 1]),
+                   ["ite", ["bin", "eq", ["bin", "mod", V(w), ["lit", 2]], ["lit", 0]], ["jump", j1, 1, self.cname(nm)], ["skip"]],
+                   inner]]
+            ast = ["seqs", ["assign", self.id(w), ["lit", 0]], ["named", self.newtag("".join(lines[1:])), self.cname(nm), wl]]
+            return [ind + ln for ln in lines], ast
+        self.label += 10
+        lines = [f"do {self.label} {v} = 1, {r.randint(2, 5)}", f"  {a} = {a} + {v} * {c}",
+                 f"{self.label} continue"]
+        self.feats.add("label-do")
         return [ind + ln for ln in lines], ["cb", self.newtag("".join(lines))]
 
     def goto_block(self, live, ind, depth):
@@ -676,26 +907,31 @@ class Gen:
         t2 = self.newtag(f"{lab} continue")
         self.feats.add("goto")
         return [f"{ind}if ({ct}) goto {lab}"] + ml + [f"{ind}{lab} continue"], \
-            ["seqs", ["ite", ca, ["cb", t1], ["skip"]], ma, ["cb", t2]]
+            ["seqs", ["ite", ca, ["jump", t1, 2, lab], ["skip"]], ma, ["jump", t2, 3, lab]]
 
     def while_loop(self, live, ind, depth):
-        """DO WHILE / DO forever with EXIT (a WhileLoop in the PSyIR: not in the model, the routine is only checked
-        end to end with gfortran)"""
+        """DO WHILE / DO forever with EXIT: a WhileLoop in the PSyIR, `doWhile` in the model"""
         r = self.r
         free = [v for v in self.loopvars if v not in live]
         v = free[0]
         n = r.randint(2, 5)
         live2 = dict(live)
         live2[v] = (0, n + 1)
-        self.modelled = False
         self.feats.add("do-while")
         i2 = ind + "  "
         bl, ba = self.block(live2, r.randint(1, 2), i2, depth + 1)
-        jl, _ = self.jump(live2, i2, r.choice(["exit", "cycle"]))
-        # the AST of an unmodelled routine is only used to classify its WHERE constructs: keep the body
+        jl, ja = self.jump(live2, i2, r.choice(["exit", "cycle"]))
+        vid = self.id(v)
+        incv = ["assign", vid, ["bin", "add", ["var", vid], ["lit", 1]]]
+        init = ["assign", vid, ["lit", 0]]
         if r.random() < 0.6:
-            return [f"{ind}{v} = 0", f"{ind}do while ({v} < {n})", f"{i2}{v} = {v} + 1"] + jl + bl + [f"{ind}end do"], ba
-        return [f"{ind}{v} = 0", f"{ind}do", f"{i2}{v} = {v} + 1", f"{i2}if ({v} > {n}) exit"] + jl + bl + [f"{ind}end do"], ba
+            lines = [f"{ind}{v} = 0", f"{ind}do while ({v} < {n})", f"{i2}{v} = {v} + 1"] + jl + bl + [f"{ind}end do"]
+            return lines, ["seqs", init, ["while", ["bin", "lt", ["var", vid], ["lit", n]], ["seqs", incv, ja] + ba[1:]]]
+        et = self.newtag("exit")
+        self.feats.add("do-forever")
+        lines = [f"{ind}{v} = 0", f"{ind}do", f"{i2}{v} = {v} + 1", f"{i2}if ({v} > {n}) exit"] + jl + bl + [f"{ind}end do"]
+        ex = ["ite", ["bin", "gt", ["var", vid], ["lit", n]], ["jump", et, 0, "none"], ["skip"]]
+        return lines, ["seqs", init, ["while", "none", ["seqs", incv, ex, ja] + ba[1:]]]
 
     def unsupported(self, live, ind, depth):
         r = self.r
@@ -747,6 +983,8 @@ class Gen:
         lines.append(f"{ind}end if{' ' + nm if nm else ''}")
         for c2a, ba in reversed(elifs):
             els = ["ite", c2a, ba, els]
+        if nm:
+            return lines, ["namedif", self.cname(nm), ["ite", ca, ta, els]]
         return lines, ["ite", ca, ta, els]
 
     def truth_block(self, ind):
@@ -826,9 +1064,9 @@ class Gen:
             elif x < 0.36 and depth < 3:
                 ls, a = self.select(live, ind, depth)
             elif x < 0.52:
-                ls, a, _ = self.where(ind)
+                ls, a, _ = self.where2(ind) if r.random() < 0.3 else self.where(ind)
             elif x < 0.57:
-                ls, a, _ = self.arrassign(ind)
+                ls, a, _ = self.arrassign2(ind) if r.random() < 0.25 else self.arrassign(ind)
             elif x < 0.67 and depth < 3:
                 ls, a = self.unsupported(live, ind, depth)
             else:
@@ -841,14 +1079,15 @@ class Gen:
     def program(self):
         r = self.r
         p = Program()
-        p.arrays = self.arrs
+        p.arrays = dict(self.arrs)
+        p.arrays.update(self.arrs2)
         p.names = self.names
         p.tagtext = self.tagtext
         nrout = r.choice([1, 1, 2, 3])
         mod = ["module m", "  implicit none",
                "  integer :: " + ", ".join(self.iscal), "  real :: x0", "  logical :: fl, fg, fh"]
-        mod += [a.decl() for a in self.arrs.values()]
-        mod += ["contains", "  subroutine init()", "    integer :: ii"]
+        mod += [a.decl() for a in self.arrs.values()] + [a.decl() for a in self.arrs2.values()]
+        mod += ["contains", "  subroutine init()", "    integer :: ii, jj"]
         for s in self.iscal:
             mod.append(f"    {s} = {r.randint(-2, 7)}")
         mod.append(f"    x0 = {r.randint(0, 5)}.0")
@@ -858,6 +1097,10 @@ class Gen:
         for a in self.arrs.values():
             k, c, m, o = r.randint(1, 7), r.randint(0, 9), r.choice([5, 7, 11]), r.randint(0, 4)
             mod += [f"    do ii = {a.lo}, {a.hi}", f"      {a.name}(ii) = mod(ii * {k} + {c + 40}, {m}) - {o}", "    end do"]
+        for a in self.arrs2.values():
+            k, c, m = r.randint(1, 5), r.randint(1, 5), r.choice([5, 7, 11])
+            mod += [f"    do jj = {a.lo2}, {a.hi2}", f"      do ii = {a.lo}, {a.hi}",
+                    f"        {a.name}(ii, jj) = mod(ii * {k} + jj * {c} + 60, {m}) - 2", "      end do", "    end do"]
         mod.append("  end subroutine init")
         for n in range(nrout):
             self.feats = set()
@@ -873,7 +1116,7 @@ class Gen:
         main = ["program p", "  use m", "  implicit none", "  call init()"]
         main += [f"  call r{n}()" for n in range(nrout)]
         main += [f"  print *, {s}" for s in self.iscal + self.rscal + self.lscal]
-        main += [f"  print *, {a}" for a in self.arrs]
+        main += [f"  print *, {a}" for a in list(self.arrs) + list(self.arrs2)]
         main.append("end program p")
         p.source = "\n".join(mod + main) + "\n"
         return p
@@ -885,7 +1128,7 @@ def firstsec(a):
         return None
     if a[0] == "sec":
         return a
-    if a[0] in ("scal", "sum", "sumdim"):
+    if a[0] in ("scal", "sum", "sumdim", "red", "reddim"):
         return None
     for y in a[1:]:
         f = firstsec(y)
@@ -915,7 +1158,22 @@ def sec_ast(aid, lo, hi, st):
 
 
 def env_sx(p):
-    return [[p.names.id(a.name), a.lo, a.hi, 1 if a.typed else 0] for a in p.arrays.values()]
+    return [[p.names.id(a.name), a.lo, a.hi, 1 if a.typed else 0] + ([a.lo2, a.hi2] if a.rank == 2 else [])
+            for a in p.arrays.values()]
+
+
+def firstsec2(a):
+    if not isinstance(a, list) or not a:
+        return None
+    if a[0] == "sec2":
+        return a
+    if a[0] in ("scal", "sum", "sumdim", "red", "reddim"):
+        return None
+    for y in a[1:]:
+        f = firstsec2(y)
+        if f is not None:
+            return f
+    return None
 
 
 def gen_program(rng, names, focus=None):
